@@ -4,5 +4,5 @@ for n in "$@"; do
   cd /repo || exit 2
   if ! git apply --3way --index /verif/proposed_fixes/$n.diff 2>/tmp/apply_$$.err; then echo "FAILED to apply $n"; cat /tmp/apply_$$.err; git checkout -q -- . ; git reset -q --hard HEAD; exit 1; fi
   head -1 /verif/proposed_fixes/$n.msg | grep -q '^fix: ' || { echo "$n: message does not start with fix:"; exit 1; }
-  git commit -q -F /verif/proposed_fixes/$n.msg && echo "applied $n as $(git rev-parse --short HEAD)"
+  git commit -q -F /verif/proposed_fixes/$n.msg && echo "applied $n as $(git rev-parse --short HEAD)" && /verif/tools/ledger_line.sh $n $(git rev-parse --short HEAD)
 done
